@@ -252,6 +252,35 @@ func genConstants(util, logp, scp, wmpt, cur *pkgSrc) string {
 
 	named(newConstEnv(cur), "ZCNExponent", "zcnExponent", "core/currency")
 
+	// PruneBelowVersion: the function-local `const maxPruneNodes` (dead keys collected before a delete batch is
+	// written) and the N of the flush test `len(keys) >= N` (must be the same name)
+	var mpn int64
+	mpnOK := false
+	for _, fn := range util.names {
+		for _, d := range util.files[fn].Decls {
+			fd, ok := d.(*ast.FuncDecl)
+			if !ok || fd.Name.Name != "PruneBelowVersion" || fd.Body == nil {
+				continue
+			}
+			ast.Inspect(fd.Body, func(n ast.Node) bool {
+				gd, ok := n.(*ast.GenDecl)
+				if !ok || gd.Tok != token.CONST {
+					return true
+				}
+				for _, sp := range gd.Specs {
+					vs := sp.(*ast.ValueSpec)
+					for i, nm := range vs.Names {
+						if nm.Name == "maxPruneNodes" && i < len(vs.Values) {
+							mpn, mpnOK = ue.eval(vs.Values[i], 0)
+						}
+					}
+				}
+				return true
+			})
+		}
+	}
+	emit("maxPruneNodes", "core/util PruneBelowVersion maxPruneNodes", mpn, mpnOK)
+
 	fmt.Fprintf(&sb, "/-- constants the extractor could not find or evaluate; obligations require this to be empty -/\ndef unknowns : List String := %s\n\n", leanStrList(unknowns))
 	sb.WriteString("end Verif.Gen.Constants\n")
 	return sb.String()
